@@ -226,9 +226,6 @@ type pos struct {
 
 func positions(t []Level) []pos {
 	var out []pos
-	for i := len(t) - 1; i >= 0; i-- { // innermost first is not "simplest"; keep outer→inner order below
-		_ = i
-	}
 	for i, l := range t {
 		for _, n := range shapeNodes(l.Shape) {
 			if i < len(t)-1 && n == hostLetter(l.Shape) {
@@ -241,11 +238,12 @@ func positions(t []Level) []pos {
 }
 
 // enumerate lists every case of the tier in a fixed order (simplest first inside each family).
-func enumerate(quick bool) []Case {
-	var out []Case
+func enumerate(quick bool, yield func(Case)) {
+	seq := 0
 	add := func(c Case) {
-		c.Seq = len(out)
-		out = append(out, c)
+		c.Seq = seq
+		seq++
+		yield(c)
 	}
 	tw := towers(quick, 2)
 
@@ -387,5 +385,4 @@ func enumerate(quick bool) []Case {
 			}
 		}
 	}
-	return out
 }
